@@ -178,10 +178,16 @@ def packInline (data : Bytes) : Nat := data.length + 2 ^ 32 * leBytes data
 def packExtern (data : Bytes) (buffer offset : Nat) : Nat :=
   data.length % 2 ^ 32 + 2 ^ 32 * leBytes (data.take 4) + 2 ^ 64 * (buffer % 2 ^ 32) + 2 ^ 96 * (offset % 2 ^ 32)
 
-/-- `push_scalar_value` of `BytesViewArray` -/
-def viewPushValue (views : List Nat) (buf0 : Bytes) (value : Bytes) : List Nat × Bytes :=
-  if value.length ≤ 12 then (views ++ [packInline value], buf0)
-  else (views ++ [packExtern value 0 buf0.length], buf0 ++ value)
+def I32_MAX : Nat := 2147483647
+
+/-- `push_scalar_value` of `BytesViewArray` (after `fix: Utf8View / BinaryView builders report lengths and buffer
+offsets beyond i32::MAX as an error`): an out-of-line value whose length or whose offset (the current buffer length)
+exceeds `i32::MAX` is refused before anything is written — `pack_extern` would unwind on its `assert!`s. -/
+def viewPushValue (views : List Nat) (buf0 : Bytes) (value : Bytes) : R (List Nat × Bytes) :=
+  if value.length ≤ 12 then .ok (views ++ [packInline value], buf0)
+  else if value.length > I32_MAX ∨ buf0.length > I32_MAX then
+    fail s!"BytesView overflow: the length {value.length} or the buffer offset {buf0.length} exceeds i32::MAX"
+  else .ok (views ++ [packExtern value 0 buf0.length], buf0 ++ value)
 
 /-! ### scalar conversions of the leaf builders -/
 
